@@ -85,6 +85,9 @@ EXTRA = [
     "struct S { int x; } a, *b;",
     "enum E { A = 1, B, } e;",
     "int f(void){ if (({ 1; })) return ({ 2; }); while (({ 0; })) ; for (({ 1; }); ({ 2; }); ({ 3; })) ; int x = ({ 4; }); return x; }",
+    "typedef int T; void f(void){ T T, *p; }",
+    "typedef int T; void f(int a){ T T , T ; }",
+    "typedef int T; enum { T , } ;",
     "int g(void) { switch (1) { case 1: case 2: case 3: g(); g(); break; default: ; } return (sizeof(int))[\"a\"]; }",
 ]
 
